@@ -40,6 +40,15 @@ class P(Prop):
             if rng.random() < 0.7:
                 xs = sorted(xs, key=lambda b: C.fl(b))       # stable: keeps -0/+0 in drawn order
             out.append(dict(op="evaluate_v_pt", ty="Poly3", segs=sg, xs=xs, meta={"class": "signed_zero"}))
+        for k in (9, 10, 17, 18, 33, 65, 100):
+            es, sg = G.tag_segs(rng, k, "ints")
+            xs = sorted(G.queries(rng, es, 40), key=C.ordered_key)
+            out.append(dict(op="evaluate_v_pt", ty="Poly0", segs=sg, xs=xs, meta={"class": "long"}))
+        MIN_, MAX_ = -1.7976931348623157e308, 1.7976931348623157e308
+        for es in ([MIN_, 0.0, MAX_, float("inf")], [MIN_, MIN_, 1.0], [float("-inf"), MIN_, 0.0], [MAX_, float("inf")]):
+            sg = [[C.bits(e), C.bits(float(i + 1))] for i, e in enumerate(es)]
+            xs = [C.bits(v) for v in (float("-inf"), float("-inf"), MIN_, -7.0, 0.0, MAX_, float("inf"))]
+            out.append(dict(op="evaluate_v_pt", ty="Poly0", segs=sg, xs=xs, meta={"class": "extreme_ends"}))
         out.append(dict(op="evaluate_v", ty="Poly0", segs=[], xs=[0], meta={"class": "empty"}))
         return out
 
